@@ -37,7 +37,7 @@ import (
 	putsvc "github.com/nspcc-dev/neofs-node/pkg/services/object/put"
 	"github.com/nspcc-dev/neofs-node/verif/lib/enumx"
 	"github.com/nspcc-dev/neofs-node/verif/lib/ev"
-	sw "github.com/nspcc-dev/neofs-node/verif/worlds/svcworld"
+	sw "github.com/nspcc-dev/neofs-node/verif/worlds/svcworld/det"
 	"github.com/nspcc-dev/neofs-sdk-go/client"
 	apistatus "github.com/nspcc-dev/neofs-sdk-go/client/status"
 	"github.com/nspcc-dev/neofs-sdk-go/container"
